@@ -206,6 +206,7 @@ class Repo(object):
     self.tier = tier
     self._mods = {}
     self._method_index = None
+    self._resolve_cache = {}
 
   def mod(self, relpath):
     if relpath not in self._mods:
@@ -258,6 +259,14 @@ class Repo(object):
     return self._method_index
 
   def resolve(self, fi, call):
+    key = id(call)
+    got = self._resolve_cache.get(key)
+    if got is None:
+      got = self._resolve(fi, call)
+      self._resolve_cache[key] = got
+    return got
+
+  def _resolve(self, fi, call):
     """Resolve a Call node inside function `fi` to a list of fq names.
 
     Returns [] when the callee is a builtin/stdlib/unknown name and
@@ -313,6 +322,13 @@ class Repo(object):
             if got:
               return [got.fq]
       # receiver of unknown type: every pipeline class defining the method
+      # (class-hierarchy analysis by name).  Dunder methods and super()
+      # receivers are not resolved this way: they would connect everything.
+      if meth.startswith('__') or (
+          isinstance(f.value, ast.Call) and dotted(f.value.func) == 'super'):
+        return []
+      if isinstance(f.value, ast.Constant):
+        return []
       return sorted(x.fq for x in self.method_index().get(meth, []))
     return []
 
@@ -375,7 +391,18 @@ _SCOPE = (ast.FunctionDef, ast.AsyncFunctionDef, ast.Lambda, ast.ClassDef)
 
 
 def walk_local(node, into_lambda=True, include_root=True):
-  """Pre-order, source-order walk that does not enter nested def/class."""
+  """Pre-order, source-order walk that does not enter nested def/class.
+  Results for function / module nodes are memoised on the node."""
+  if isinstance(node, (ast.FunctionDef, ast.AsyncFunctionDef, ast.Module)):
+    cache = node.__dict__.setdefault('_wl_cache', {})
+    key = (into_lambda, include_root)
+    if key not in cache:
+      cache[key] = list(_walk_local(node, into_lambda, include_root))
+    return cache[key]
+  return _walk_local(node, into_lambda, include_root)
+
+
+def _walk_local(node, into_lambda=True, include_root=True):
   stack = [(node, True)]
   while stack:
     n, is_root = stack.pop()
